@@ -8,7 +8,12 @@ const stance = "Static analysis of /repo's current source (go/packages + go/type
 func init() {
 	defProp(&Prop{ID: "C01", Title: "Keyspace is a sequential typed map",
 		Explanation: stance + "Decided clause: a generic/string command applied to a value of the wrong type fails with an error instead of panicking or silently succeeding (type assertions on store values are comma-ok with an error exit), and constant indices into the command are inside every possible length.",
+		Decides:     []string{"WT wrong-type discipline of the generic and string handlers", "AR constant index safety of the generic and string handlers and key functions"},
 		NotCovered:  []string{"last-write-wins, counter arithmetic, byte-for-byte preservation, option combinations of SET, deadlines carried across SET/RENAME (value-level; no sound static argument in reach)"},
+		Rules: []RuleRef{
+			{ID: "WT", Scope: []string{"internal/modules/generic.", "internal/modules/string."}, Floor: 15},
+			{ID: "AR", Scope: []string{"internal/modules/generic.", "internal/modules/string."}, Floor: 55},
+		},
 	})
 	defProp(&Prop{ID: "C02", Title: "Append-only log",
 		Explanation: stance + "Decided clauses: every successful write command is appended to the AOF after (and only after) its handler succeeded, with the bytes received, under the request's database, never during replay (D2); mutating handlers are write-classified, otherwise they are never logged (T2); under 'always' the writer fsyncs before it reports success and a database switch is logged before the command (D3); restore applies the preamble before the log and replays each command into the database of the last SELECT marker (D7).",
@@ -24,7 +29,12 @@ func init() {
 		Explanation: stance,
 	})
 	defProp(&Prop{ID: "C05", Title: "Commands are atomic",
-		Explanation: stance,
+		Explanation: stance + "Decided clauses: every access to a guarded structure (store, memory counter, volatile-key index, per-database caches and their heaps, connection table, command list, ACL users/connections/globs, pub/sub tables, AOF handles) happens with its lock held in a sufficient mode on every call chain from every root (L1); the lock-order graph is acyclic modulo gate locks and no non-reentrant lock is re-acquired (L2); in-progress flags are cleared on every exit (D8); a command that takes more than one keyspace step holds a command-scoped lock across them (L4) and does not mutate stored objects in place outside the keyspace lock (P3).",
+		Decides:     []string{"L1 lock discipline over the frozen guard table", "L2 lock order / self-deadlock", "D8 flag pairing", "L4 command-level atomicity (reported per handler)", "P3 in-place mutation outside the lock (reported per handler)"},
+		NotCovered:  []string{"linearizability of replies over histories", "liveness under contention", "the busy-wait handshake between state copy and state mutation (check-then-set on two atomics)"},
+		Assumptions: []string{"the guard table (field -> lock) frozen in locks.go is the intended discipline; it was inferred from the majority of accesses and confirmed by reading"},
+		Rules:       []RuleRef{{ID: "L1"}, {ID: "L2"}, {ID: "D8"}, {ID: "L4"}, {ID: "P3"}},
+		Tech:        "static analysis: interprocedural must-lockset over SSA CFGs with wrapper summaries, caller-chain requirement propagation (VTA), gate-aware lock-order graph, store-reference taint",
 	})
 	defProp(&Prop{ID: "C06", Title: "ACL authorization",
 		Explanation: stance + "Decided clauses: every effectful step of the TCP dispatcher (handler invocation, raft apply, forwarding, AOF append, mutation flag) is dominated by a successful AuthorizeConnection or by a bypass edge for non-TCP callers, and the gate sees the very command, sub-command and tokens that are executed (D1).",
@@ -59,15 +69,54 @@ func init() {
 	})
 	defProp(&Prop{ID: "C12", Title: "Wire protocol",
 		Explanation: stance + "Decided clause: the handler the dispatcher invokes is non-nil for every registered command (no nil-func crash on a bare parent command) (T1).",
-		Decides:     []string{"T1 complete dispatch"},
+		Decides:     []string{"T1 complete dispatch", "AR constant index safety over all handlers, key functions and their helpers (338 sites)"},
 		NotCovered:  []string{"framing of pipelined or split input (byte-stream behaviour)", "data-dependent indices", "array-header/element-count agreement", "agreement of the embedded API's parser with the reply"},
-		Rules:       []RuleRef{{ID: "T0"}, {ID: "T1"}},
+		Rules:       []RuleRef{{ID: "T0"}, {ID: "T1"}, {ID: "AR"}},
 	})
-	defProp(&Prop{ID: "C13", Title: "Read-only commands are pure", Explanation: stance})
-	defProp(&Prop{ID: "C14", Title: "Hash commands", Explanation: stance})
-	defProp(&Prop{ID: "C15", Title: "List commands", Explanation: stance})
-	defProp(&Prop{ID: "C16", Title: "Set commands", Explanation: stance})
-	defProp(&Prop{ID: "C17", Title: "Sorted-set commands", Explanation: stance})
+	defProp(&Prop{ID: "C13", Title: "Read-only commands are pure",
+		Explanation: stance + "Decided: no handler of a read-only command writes through any reference it obtained from the store, on any call path (values are handed out by reference, so this is the mechanism by which a read could change what later commands observe) (P1); a value stored by SetValues is never a store-derived reference read under another key that stays in place, so a STORE destination never shares structure with a source (P2).",
+		Decides:     []string{"T3 the read-only set", "P1 read purity", "P2 store freshness"},
+		NotCovered:  []string{"removal of expired keys (allowed by the statement)", "cache bookkeeping touched by reads", "equality of the dataset before/after (value-level)"},
+		Assumptions: []string{"external (stdlib) callees other than the listed in-place functions (sort.*, slices.Sort*/Reverse/Delete*/Insert/Compact/Replace) do not mutate their arguments"},
+		Rules:       []RuleRef{{ID: "T3"}, {ID: "P1"}, {ID: "P2"}},
+		Tech:        "static analysis: context-sensitive store-reference taint over SSA (per handler, with summaries) + call-graph reachability",
+	})
+	defProp(&Prop{ID: "C14", Title: "Hash commands",
+		Explanation: stance + "Decided clause only: reading a key of another type with a hash command fails without changing it (HSET replacing a non-hash is outside the statement) — every type assertion on the stored value is comma-ok and its not-ok edge reaches only error returns, before any mutator (WT); constant indices into the command are within every possible length (AR). The algebraic content of the statement (equivalence with a reference structure) is value-level and NOT claimed.",
+		Decides:     []string{"WT wrong-type discipline of the family's handlers", "AR constant index safety of the family's handlers and key functions"},
+		NotCovered:  []string{"equivalence of replies and resulting values with the reference map/sequence/set/scored map (value-level)", "data-dependent indices"},
+		Rules: []RuleRef{
+			{ID: "WT", Scope: []string{"internal/modules/hash."}, Not: []string{"handleHSET|"}, Floor: 10},
+			{ID: "AR", Scope: []string{"internal/modules/hash."}, Floor: 25},
+		},
+	})
+	defProp(&Prop{ID: "C15", Title: "List commands",
+		Explanation: stance + "Decided clause only: a list command on a non-list key fails without changing it — every type assertion on the stored value is comma-ok and its not-ok edge reaches only error returns, before any mutator (WT); constant indices into the command are within every possible length (AR). The algebraic content of the statement (equivalence with a reference structure) is value-level and NOT claimed.",
+		Decides:     []string{"WT wrong-type discipline of the family's handlers", "AR constant index safety of the family's handlers and key functions"},
+		NotCovered:  []string{"equivalence of replies and resulting values with the reference map/sequence/set/scored map (value-level)", "data-dependent indices"},
+		Rules: []RuleRef{
+			{ID: "WT", Scope: []string{"internal/modules/list."}, Floor: 9},
+			{ID: "AR", Scope: []string{"internal/modules/list."}, Floor: 25},
+		},
+	})
+	defProp(&Prop{ID: "C16", Title: "Set commands",
+		Explanation: stance + "Decided clause only: a set command on a non-set key fails without changing anything — every type assertion on the stored value is comma-ok and its not-ok edge reaches only error returns, before any mutator (WT); constant indices into the command are within every possible length (AR). The algebraic content of the statement (equivalence with a reference structure) is value-level and NOT claimed.",
+		Decides:     []string{"WT wrong-type discipline of the family's handlers", "AR constant index safety of the family's handlers and key functions"},
+		NotCovered:  []string{"equivalence of replies and resulting values with the reference map/sequence/set/scored map (value-level)", "data-dependent indices"},
+		Rules: []RuleRef{
+			{ID: "WT", Scope: []string{"internal/modules/set."}, Floor: 15},
+			{ID: "AR", Scope: []string{"internal/modules/set."}, Floor: 25},
+		},
+	})
+	defProp(&Prop{ID: "C17", Title: "Sorted-set commands",
+		Explanation: stance + "Decided clause only: a sorted-set command on another type of key fails without changing anything — every type assertion on the stored value is comma-ok and its not-ok edge reaches only error returns, before any mutator (WT); constant indices into the command are within every possible length (AR). The algebraic content of the statement (equivalence with a reference structure) is value-level and NOT claimed.",
+		Decides:     []string{"WT wrong-type discipline of the family's handlers", "AR constant index safety of the family's handlers and key functions"},
+		NotCovered:  []string{"equivalence of replies and resulting values with the reference map/sequence/set/scored map (value-level)", "data-dependent indices"},
+		Rules: []RuleRef{
+			{ID: "WT", Scope: []string{"internal/modules/sorted_set."}, Floor: 20},
+			{ID: "AR", Scope: []string{"internal/modules/sorted_set."}, Floor: 80},
+		},
+	})
 	defProp(&Prop{ID: "C18", Title: "Pub/Sub", Explanation: stance})
 	defProp(&Prop{ID: "C19", Title: "Reported memory usage", Explanation: stance})
 	defProp(&Prop{ID: "C20", Title: "Logical databases", Explanation: stance})
